@@ -12,4 +12,6 @@ pub const F_CHUNKS_U0_NONEMPTY: usize = GA::<u8, U0>::chunks_from_slice(&[1u8]).
 pub const F_CHUNKS_MUT_U0_NONEMPTY: usize = { let mut b = [1u8, 2]; GA::<u8, U0>::chunks_from_slice_mut(&mut b).1.len() };
 pub const F_CHUNKS_U0_ZST_NONEMPTY: usize = GA::<(), U0>::chunks_from_slice(&[()]).1.len();
 pub const F_CONST_TRANSMUTE_SIZE_MISMATCH: usize = unsafe { generic_array::const_transmute::<[u8; 3], u32>([1, 2, 3]) as usize };
+pub const F_CONST_TRANSMUTE_SOURCE_LARGER: usize = unsafe { generic_array::const_transmute::<[u8; 5], u32>([1, 2, 3, 4, 5]) as usize };
+pub const F_CONST_TRANSMUTE_ARRAY_TO_SHORTER_NATIVE: usize = unsafe { generic_array::const_transmute::<GA<u8, U3>, [u8; 2]>(GA::<u8, U3>::from_array([1, 2, 3]))[0] as usize };
 pub const F_TRY_FROM_SLICE_UNWRAP_ERR: usize = match GA::<u8, U3>::try_from_slice(&[1u8, 2]) { Ok(a) => a.as_slice().len(), Err(_) => panic!("LengthError as expected") };
